@@ -277,7 +277,7 @@ def _run_one(ctx, f, last, pool_level_total):
             if ok_sort:
                 dom = g.dominates(s, lp)
                 later = [c for c in own_nodes(f.node) if isinstance(c, ast.Call) and isinstance(c.func, ast.Attribute) and norm.is_name(c.func.value, L)
-                         and c.func.attr in ("sort", "reverse", "insert", "append", "extend", "pop", "remove") and c.lineno > s.lineno]
+                         and c.func.attr in ("sort", "reverse", "insert", "append", "extend", "pop", "remove") and before(f, s, c)]
                 ok_sort = dom and not later
                 d += f"; sort dominates the kill loop: {dom}; later mutations of the list: {[norm.U(x) for x in later]}"
         ctx.ob(2, "K5", "the candidate list is ordered by descending score with a stable sort keyed on the score alone", ok_sort, f,
